@@ -110,15 +110,18 @@ func TestVerifC04Streams(t *testing.T) {
 		proto  protocol.ID
 		cancel bool
 		use    bool // write/read on the stream after opening it
+		raw    int  // 1: open a raw swarm stream and close it before negotiating; 2: send garbage instead of a negotiation
 	}
 	atts := []attempt{
-		{0, pOK, false, true},
-		{1, pNoHandler, false, true},
-		{2, pLocalRef, false, true},
-		{3, pRemoteRef, false, true},
-		{4, pReset, false, true},
-		{5, pOK, true, false},
-		{6, pNoHandler, true, false},
+		{0, pOK, false, true, 0},
+		{1, pNoHandler, false, true, 0},
+		{2, pLocalRef, false, true, 0},
+		{3, pRemoteRef, false, true, 0},
+		{4, pReset, false, true, 0},
+		{5, pOK, true, false, 0},
+		{6, pNoHandler, true, false, 0},
+		{7, "", false, false, 1},
+		{8, "", false, false, 2},
 	}
 	for round := 0; round < rounds; round++ {
 		// a round in random order, some attempts concurrently
@@ -136,7 +139,31 @@ func TestVerifC04Streams(t *testing.T) {
 			if a.cancel {
 				cancel()
 			}
-			s, err := h1.NewStream(ctx, h2.ID(), a.proto)
+			var s network.Stream
+			var err error
+			if a.raw != 0 {
+				// a stream opened below the host: the remote's newStreamHandler gets EOF
+				// (or garbage) where it expects the protocol negotiation
+				s, err = h1.Network().NewStream(ctx, h2.ID())
+				if err == nil {
+					if a.raw == 2 {
+						s.Write([]byte("\x13/not-multistream/garbage\n"))
+					}
+					s.CloseWrite()
+					s.SetDeadline(time.Now().Add(2 * time.Second))
+					buf := make([]byte, 64)
+					for {
+						if _, rerr := s.Read(buf); rerr != nil {
+							break
+						}
+					}
+					err = context.Canceled // the attempt is a failed one by construction
+					s.Close()
+					s = nil
+				}
+			} else {
+				s, err = h1.NewStream(ctx, h2.ID(), a.proto)
+			}
 			failed := err != nil
 			if err == nil && a.use {
 				s.SetDeadline(time.Now().Add(2 * time.Second))
